@@ -399,6 +399,15 @@ fn gen_case_c06(sub: u64, thorough: bool) -> Case {
         cfg.override_glob = Some(["!d1/", "*.x", "!f1*", "d0/", "!l*"][rng.below(5)].to_string());
     }
     cfg.type_x = rng.chance(1, 8);
+    // With a size limit both walkers stat every file; that stat failing for one file (it was
+    // listed, then cannot be examined) must not make either of them drop it.
+    let mut stat_fault = None;
+    if cfg.max_filesize.is_some() && rng.chance(1, 3) && shim::available() {
+        let files: Vec<&Node> = tree.nodes.iter().filter(|n| matches!(n.kind, NodeKind::File(_)) && !tree.roots.contains(&n.path)).collect();
+        if !files.is_empty() {
+            stat_fault = Some(files[rng.below(files.len())].path.clone());
+        }
+    }
     Case {
         tree,
         cfg,
@@ -408,7 +417,7 @@ fn gen_case_c06(sub: u64, thorough: bool) -> Case {
         replay: vec![],
         strict: false,
         readdir_fault: (0, 1),
-        stat_fault: None,
+        stat_fault,
     }
 }
 
@@ -654,6 +663,11 @@ fn trace_text(o: &Outcome) -> String {
 /// Evaluates one case on a freshly materialised tree.
 fn evaluate(prop: &str, case: &Case, scratch: &Path) -> (RunResult, Option<Verdict>) {
     let base = scratch.join("r");
+    if case.tree.collide {
+        // left-over mounts of a run that was aborted
+        tree::umount_lazy(&base);
+        tree::umount_lazy(&scratch.join("xm"));
+    }
     let _ = std::fs::remove_dir_all(&base);
     let xdev = materialise(&base, &case.tree);
     if let Some(d) = &case.stat_fault {
@@ -665,13 +679,19 @@ fn evaluate(prop: &str, case: &Case, scratch: &Path) -> (RunResult, Option<Verdi
     let mut r = run_parallel(&base, case);
     if case.stat_fault.is_some() {
         r.stat_faults = shim::stat_faults();
-        shim::set(&base, "");
     }
     let v = if prop == "C07" {
+        shim::set(&base, "");
         check_c07(case, &base, &r)
     } else {
+        // the serial walker meets the same fault; the independent listing does not (it is told
+        // which file's size is unknown)
         let serial = run_serial(&base, &case.tree, &case.cfg);
-        check_c06(case, &base, &r, &serial)
+        shim::set(&base, "");
+        tree::SIZE_UNKNOWN.with(|c| *c.borrow_mut() = case.stat_fault.clone());
+        let v = check_c06(case, &base, &r, &serial);
+        tree::SIZE_UNKNOWN.with(|c| *c.borrow_mut() = None);
+        v
     };
     drop(xdev);
     (r, v)
@@ -819,6 +839,8 @@ fn worker_main(opts: &Opts) {
             // (C06 compares with the serial walker, whose directory reads are not hooked)
             faults.add("readdir-entry-error", o.readdir_faults);
             faults.add("stat-fails-at-device-check(syscall shim)", r.stat_faults);
+        } else {
+            faults.add("stat-fails-at-size-check(syscall shim)", r.stat_faults);
         }
         faults.add("preemption", o.preemptions);
         faults.add("idle-sleep-simulated", o.idle_ms);
@@ -847,6 +869,7 @@ fn worker_main(opts: &Opts) {
             probes.add("filesize-cut", case.cfg.max_filesize.is_some() as u64);
             probes.add("filter-cut", case.cfg.filter_char.is_some() as u64);
             probes.add("ignore-rule-cut", (case.cfg.ignore_files && case.tree.nodes.iter().any(|n| n.path.ends_with(".ignore") || n.path.ends_with(".gitignore"))) as u64);
+            probes.add("link-target-on-another-device-with-an-ancestor's-inode-number", tree::COLLISION_ACHIEVED.with(|c| c.get()) as u64);
             probes.add("crossed-device-boundary", (case.cfg.same_file_system && case.cfg.follow_links && case.tree.nodes.iter().any(|n| matches!(n.kind, NodeKind::XdevLink))) as u64);
         }
         if samples.len() < 2 && o.preemptions > 0 {
@@ -1043,6 +1066,19 @@ fn main() {
                 let pid = rest.split('-').next().unwrap_or("");
                 if !pid.is_empty() && !Path::new(&format!("/proc/{pid}")).exists() {
                     let _ = std::fs::remove_dir_all(e.path());
+                }
+            }
+        }
+    }
+    // ... and tmpfs instances mounted by such processes (inode-collision cases)
+    if let Ok(m) = std::fs::read_to_string("/proc/mounts") {
+        for line in m.lines() {
+            let Some(mp) = line.split(' ').nth(1) else { continue };
+            if let Some(rest) = mp.strip_prefix("/dev/shm/verif-walk-") {
+                let pid = rest.split('-').next().unwrap_or("");
+                if !pid.is_empty() && !Path::new(&format!("/proc/{pid}")).exists() {
+                    tree::umount_lazy(Path::new(mp));
+                    let _ = std::fs::remove_dir_all(format!("/dev/shm/verif-walk-{}", rest.split('/').next().unwrap_or("")));
                 }
             }
         }
